@@ -603,6 +603,28 @@ func wellFormedForC15(es []UEntry) bool {
 	return true
 }
 
+// unprivDirPermBites: is there a directory entry whose recorded mode lacks the owner's search bit and a
+// later directory entry strictly below it (dst itself counts as above everything)?
+func unprivDirPermBites(es []UEntry) bool {
+	type d struct{ p string }
+	var noSearch []string
+	for _, e := range es {
+		if e.Typ != tar.TypeDir || e.Name == "" {
+			continue
+		}
+		p := filepath.Clean(strings.TrimPrefix(e.Name, "/"))
+		for _, a := range noSearch {
+			if a == "." && p != "." || a != "." && strings.HasPrefix(p, a+"/") {
+				return true
+			}
+		}
+		if e.Mode&0100 == 0 {
+			noSearch = append(noSearch, p)
+		}
+	}
+	return false
+}
+
 // ---------- known-finding mechanism predicates ----------
 
 func hasDotDotAfterName(target string) bool {
@@ -828,9 +850,31 @@ func init() {
 				}
 			}
 		}
+		// exact replay (-case): the recorded case takes the last slot and an arena of its own (the
+		// ordinary cases keep their arenas and their share of the random stream) and is run first, alone
+		var replay *job
+		var rc UCase
+		if loadReplayInput(cfg, "unpack", &rc) {
+			j := job{idx: len(jobs), c: &rc, arena: mkArena(999999)}
+			if why := prepareReplayedUCase(&rc, j.arena, work); why != "" {
+				rep.ReplayNote("refused: " + why)
+			} else {
+				jobs = append(jobs, j)
+				replay = &jobs[len(jobs)-1]
+			}
+		} else {
+			replayMissing(cfg, rep, "unpack")
+		}
 		reqs := make([]string, len(jobs))
 		impl := make([]string, len(jobs))
 		human := make([]interface{}, len(jobs))
+		if replay != nil {
+			rep.BeginReplay()
+			runUnpackCase(cfg, rep, replay.idx, replay.c, replay.arena, reqs, impl, human)
+			os.RemoveAll(replay.arena)
+			rep.EndReplay(reqs[replay.idx])
+			jobs = jobs[:len(jobs)-1]
+		}
 		var wg sync.WaitGroup
 		sem := make(chan struct{}, 16)
 		for _, j := range jobs {
@@ -891,9 +935,21 @@ func runUnpackCase(cfg *Config, rep *Report, idx int, c *UCase, arena string, re
 		rep.Count("unprivileged")
 	}
 	line := fmt.Sprintf("unpack %s %s %s %s %s %s %s", priv, X("/"), X(dst), encStrList(c.Allow), c.Fault, encArena(arena, before), encEntries(decoded))
-	reqs[idx] = line
-	impl[idx] = out.class + " " + encArena(arena, after)
-	human[idx] = c
+	// The filesystem model has no directory permission checks (FS.lean: only the owner-write test of
+	// create).  For an unprivileged run they bite in one place: the deferred directory pass restores
+	// modes in archive order, so a directory entry whose mode lacks the owner's search bit, followed by
+	// a directory entry below it, makes the later chmod fail with EACCES (observed: thorough tier, uid
+	// 65534, an entry "/" of mode 0400 for dst itself).  A sequential reading by an unprivileged process
+	// fails there too, and C15 constrains successful runs only; such cases are outside the model's domain
+	// and are neither compared with it nor judged by the "well-formed archive refused" oracle.
+	dirPermOutside := priv == "0" && unprivDirPermBites(decoded)
+	if dirPermOutside {
+		rep.Count("outside-model:unprivileged-dir-search-bit")
+	} else {
+		reqs[idx] = line
+		impl[idx] = out.class + " " + encArena(arena, after)
+		human[idx] = c
+	}
 
 	nt := false
 	seen := map[string]bool{}
@@ -1047,7 +1103,7 @@ func runUnpackCase(cfg *Config, rep *Report, idx int, c *UCase, arena string, re
 
 	// ---- C15: well-formed archives are materialised as the reference interpreter says ----
 	dstIsDirOrMissing := !dstExisted || bm[dstRel].Kind == "d"
-	if len(c.Allow) == 0 && onlyStandardInit(c.Init) && wellFormedForC15(decoded) && dstIsDirOrMissing {
+	if len(c.Allow) == 0 && onlyStandardInit(c.Init) && wellFormedForC15(decoded) && dstIsDirOrMissing && !dirPermOutside {
 		tree, ok, wantErr := refUntar(decoded)
 		if ok {
 			rep.Count("c15:judged")
@@ -1087,6 +1143,49 @@ func runUnpackCase(cfg *Config, rep *Report, idx int, c *UCase, arena string, re
 			}
 		}
 	}
+}
+
+// prepareReplayedUCase makes a recorded case runnable in arena: absolute paths that name the arena of the
+// run that produced it (".../u000123" inside link targets and allow-list entries) are rewritten, and
+// the case is refused ("" = accepted) if it mentions a path outside the scratch directory.
+func prepareReplayedUCase(c *UCase, arena, work string) string {
+	if c.Dst == "" || len(c.Init) == 0 {
+		return "the recorded input is not an unpack case (no dst / initial arena content)"
+	}
+	if d := filepath.Clean(c.Dst); strings.HasPrefix(c.Dst, "/") || d == ".." || strings.HasPrefix(d, "../") {
+		return fmt.Sprintf("dst %q is not a path below the arena", c.Dst)
+	}
+	rw := func(s string) string { return rewriteArena(s, 'u', 6, arena) }
+	for k := range c.Init {
+		n := &c.Init[k]
+		if why := unsafeRelName(n.Path, false); why != "" {
+			return "initial node: " + why
+		}
+		if n.Kind == "l" {
+			n.Data = rw(n.Data)
+			if why := unsafeTarget(n.Data, arena); why != "" {
+				return "initial link " + n.Path + ": " + why
+			}
+		}
+	}
+	for k := range c.Entries {
+		e := &c.Entries[k]
+		if why := unsafeRelName(e.Name, true); why != "" {
+			return "entry name: " + why
+		}
+		e.Link = rw(e.Link)
+		if why := unsafeTarget(e.Link, arena); why != "" {
+			return "link target of entry " + e.Name + ": " + why
+		}
+	}
+	for k := range c.Allow {
+		c.Allow[k] = rw(c.Allow[k])
+		if why := unsafeTarget(c.Allow[k], arena); why != "" {
+			return "allow-list entry: " + why
+		}
+	}
+	_ = work
+	return ""
 }
 
 func onlyStandardInit(init []FSNode) bool {
